@@ -2,7 +2,7 @@
 import z3
 
 from pyvc import vals as V
-from pyvc.vals import Val, SeqV, NONE, fresh
+from pyvc.vals import Val, SeqV, NONE, fresh, PyTuple
 from pyvc.unit import Unit, LoopSpec, LemmaUnit
 from pyvc.models import UFunc, Rec, Fn, Nop, Future, FutureCtor, PipeWriter, PipeReader
 from pyvc.core import St, Module, box, Unsupported, KwPack, StarPack, Obj, ecode, Callable_, unbox_handle
@@ -18,7 +18,7 @@ ASSUMPTIONS = (
     'handle_exception() does not raise (documented requirement on overrides)',
     'the OS-level join/sentinel wait return once the child has exited (bounded time is not decided)',
 )
-NOT_DECIDED = ('bounded time of OS join / signal delivery', 'wait()/as_completed(): the id->worker map comprehension is outside pyvc\'s subset (see bounded stand-in)')
+NOT_DECIDED = ('bounded time of OS join / signal delivery', 'that concurrent.futures.wait/as_completed themselves return once the futures are resolved (trusted stdlib; the futures ARE resolved on every path: unit _collect_result / Thread.run)')
 
 LOG_IGNORE = ('root.setLevel', 'root.addHandler', 'logging.captureWarnings', 'logger_queue.close', 'logging.getLogger().removeHandler',
               'sys.stderr.write', 'traceback.print_exc', 'time.sleep')
@@ -641,7 +641,280 @@ class Agreement(LemmaUnit):
                z3.And(j_raises == r_raises, j_raises == z3.Not(V.is_none(exc_ret)), z3.Implies(j_raises, z3.And(j_exc == r_exc, j_exc == exc_ret))))
 
 
+
+# ================================================================ wait() / as_completed(): futures are mapped back to their own workers
+import ast as _ast       # noqa: E402
+worker_at = z3.Function('worker_at', z3.IntSort(), Val)
+wfut_at = z3.Function('future_of_worker_at', z3.IntSort(), Val)          # worker_at(i)._future_
+py_id = z3.Function('py_id', Val, z3.IntSort())
+IDX = z3.Int('generic_index')
+
+
+class Fam(Obj):
+    """a sequence/set/dict built by a comprehension over the workers: element (key, value) as z3 terms of the generic index IDX,
+    restricted to the indices satisfying `member` (a predicate of IDX)"""
+
+    def __init__(self, ex, kind, elem, key=None, member=None):
+        super().__init__(ex, kind)
+        self.kind, self.elem, self.key, self.member = kind, elem, key, member if member is not None else z3.BoolVal(True)
+
+    def havoc(self, ex, st):
+        pass
+
+    def at(self, term, j):
+        return z3.substitute(term, (IDX, j))
+
+    def truth(self, ex, st):
+        return z3.Bool(f'{self.kind}_{self.oid}_nonempty')
+
+    def getitem(self, ex, st, idx, node):
+        # dict lookup: the value whose key equals idx.  Keys are ids of the workers' futures: injective (obligation below), so the
+        # lookup of key(j) is value(j); any other key has no known value.
+        if self.kind != 'dict':
+            raise Unsupported('subscript of a comprehension result')
+        k = idx if z3.is_expr(idx) and idx.sort() == z3.IntSort() else None
+        if k is None:
+            raise Unsupported('dict key')
+        res = fresh('looked_up_value')
+        j, i2 = fresh('some_index', z3.IntSort()), fresh('other_index', z3.IntSort())
+        ex.oblige(st, f'line {node.lineno}: the keys of the future->worker map are pairwise distinct (one entry per worker)',
+                  z3.Implies(z3.And(j >= 0, i2 >= 0, self.at(self.key, j) == self.at(self.key, i2)), j == i2))
+        # dict semantics, instantiated at every worker index that occurs in the key being looked up
+        cands, stack, seen = [], [k], set()
+        while stack:
+            t = stack.pop()
+            if t.get_id() in seen:
+                continue
+            seen.add(t.get_id())
+            if z3.is_app(t) and (t.decl().eq(wfut_at) or t.decl().eq(worker_at)):
+                cands.append(t.arg(0))
+            stack.extend(t.children())
+        st = st.fork()
+        for c in cands:
+            st.assume(z3.Implies(z3.And(c >= 0, k == self.at(self.key, c)), res == self.at(self.elem, c)))
+        return [('ok', st, res)]
+
+
+class WaitUnitBase(Unit):
+    """wait(workers, timeout, return_when): hands ALL the workers' own futures to concurrent.futures.wait and maps every future of the two
+    result sets back to ITS OWN worker (so: done/not_done are the workers whose targets have / have not ended)."""
+    prop = 'C12'
+    file = 'multiprocessing/__init__.py'
+    qual = 'wait'
+    variant = 'multiprocessing'
+    canaries = (('map keyed by the worker instead of its future', 'future_to_thread = {id(t._future_): t for t in workers}', 'future_to_thread = {id(t): t for t in workers}', ''),
+                ('done and not_done swapped', 'return done, not_done', 'return not_done, done', ''),
+                ('the workers themselves are handed to concurrent.futures.wait', 'futures = [t._future_ for t in workers]', 'futures = [t for t in workers]', ''))
+
+    def setup(self, ex):
+        st = St()
+        self.workers = Fam(ex, 'workers', worker_at(IDX))
+        self.done = z3.Function('future_is_done', Val, z3.BoolSort())
+        st.env.update(workers=self.workers, threads=self.workers, timeout=z3.Const('timeout', Val), return_when=RetWhen(ex))
+        # every worker has its own future; ids of live objects are unique
+        i, j = z3.Ints('wi wj')
+        self.facts = lambda a, b: [z3.Implies(wfut_at(a) == wfut_at(b), a == b), z3.Implies(py_id(wfut_at(a)) == py_id(wfut_at(b)), wfut_at(a) == wfut_at(b)),
+                                   z3.Implies(py_id(worker_at(a)) == py_id(wfut_at(b)), False)]
+        st.ghost['cfwait'] = ()
+        ex.sym_models['t'] = self
+        ex.sym_models['f'] = self
+
+        def cf_wait(e, s, a, k, n):
+            s = s.fork()
+            futs = unbox_handle(e, a[0])
+            ok = isinstance(futs, Fam) and futs.kind == 'list'
+            e.oblige(s, f'line {n.lineno}: concurrent.futures.wait gets the futures of ALL the workers, each worker\'s own (with the caller\'s timeout and return_when)',
+                     z3.And(futs.elem == wfut_at(IDX), futs.member == z3.BoolVal(True), box(e, k.get('timeout')) == z3.Const('timeout', Val), box(e, k.get('return_when')) == z3.Const('RETURN_WHEN_UPPER', Val)) if ok else z3.BoolVal(False))
+            s.ghost['cfwait'] = s.ghost['cfwait'] + (1,)
+            d = Fam(e, 'set', wfut_at(IDX), member=self.done(wfut_at(IDX)))
+            nd = Fam(e, 'set', wfut_at(IDX), member=z3.Not(self.done(wfut_at(IDX))))
+            return [('ok', s, PyTuple([d, nd]))]
+        ex.globals['concurrent.futures.wait'] = Fn(cf_wait, trusted='concurrent.futures.wait(fs, timeout, return_when) returns (done, not_done), a partition of fs')
+        return st
+
+    # t._future_ of a worker term
+    def getattr(self, ex, st, base, attr, node):
+        if attr == '_future_':
+            b = z3.simplify(base)
+            if z3.is_app(b) and b.decl().eq(worker_at):
+                return [('ok', st, wfut_at(b.arg(0)))]
+        raise Unsupported(f'.{attr} on {base}')
+
+    def on_comprehension(self, ex, st, e):
+        gens = e.generators
+        if len(gens) != 1 or gens[0].ifs or not isinstance(gens[0].target, _ast.Name):
+            return None
+        var = gens[0].target.id
+
+        def f(s, src):
+            src = unbox_handle(ex, src)
+            if not isinstance(src, Fam):
+                raise Unsupported('comprehension over something else than the workers / a wait() result set')
+            s2 = s.fork()
+            s2.env = dict(s.env)
+            s2.env[var] = src.elem            # the element at the generic index
+            if isinstance(e, _ast.DictComp):
+                (k1, s3, key), = ex.ev(e.key, s2)
+                (k2, s4, val), = ex.ev(e.value, s3)
+                return [('ok', s, Fam(ex, 'dict', box(ex, val), key=key, member=src.member))]
+            (k1, s3, val), = ex.ev(e.elt, s2)
+            out = Fam(ex, 'list' if isinstance(e, _ast.ListComp) else 'gen', box(ex, val), member=src.member)
+            s = s.fork()
+            s.pc = list(s3.pc)                # keep the facts gained while evaluating the element expression (dict lookups)
+            return [('ok', s, out)]
+        return ex.bind(ex.ev(gens[0].iter, st), f)
+
+    def on_call(self, ex, st, e, src):
+        if src == 'set' and len(e.args) == 1:
+            def f(s, g):
+                g = unbox_handle(ex, g)
+                if not isinstance(g, Fam):
+                    raise Unsupported('set() of something else')
+                return [('ok', s, Fam(ex, 'set', g.elem, member=g.member))]
+            return ex.bind(ex.ev(e.args[0], st), f)
+        return None
+
+    def post(self, ex, outs):
+        a, b = z3.Ints('wi wj')
+        for k, s, p in outs:
+            if k not in ('normal', 'return'):
+                ex.oblige(s, 'exit: does not raise', False)
+                continue
+            p = unbox_handle(ex, p)
+            ok = isinstance(p, PyTuple) and len(p.items) == 2 and len(s.ghost['cfwait']) == 1
+            if not ok:
+                ex.oblige(s, 'exit: returns (done, not_done) after one concurrent.futures.wait', False)
+                continue
+            d, nd = (unbox_handle(ex, x) for x in p.items)
+            done_i = self.done(wfut_at(IDX))
+            # an empty result set is returned as is (the empty set of futures): fine, nothing to map
+            def good(fam, member):
+                if not isinstance(fam, Fam):
+                    return z3.BoolVal(False)
+                mapped = z3.And(z3.Implies(IDX >= 0, fam.elem == worker_at(IDX)), fam.member == member)
+                unmapped_empty = z3.And(z3.Not(fam.truth(ex, s)), fam.member == member)
+                return z3.Or(mapped, unmapped_empty)
+            ex.oblige(s, 'exit: done is exactly the set of workers whose own future is done, not_done exactly the others (each future mapped back to its own worker)', z3.And(good(d, done_i), good(nd, z3.Not(done_i))))
+
+    def run(self, override=None):
+        res = super().run(override)
+        # the witness instantiation and the injectivity facts are hypotheses of every obligation
+        a, b = z3.Ints('wi wj')
+        for ob in res['obligations']:
+            idxs = [v for v in _consts(ob) if v.sort() == z3.IntSort()]
+            extra = []
+            for x in idxs[:6]:
+                for y in idxs[:6]:
+                    extra += self.facts(x, y)
+            ob.hyps = list(ob.hyps) + extra
+        return res
+
+
+def _consts(ob):
+    seen, out, stack = set(), [], [ob.goal] + list(ob.hyps)
+    while stack:
+        t = stack.pop()
+        if not z3.is_expr(t) or t.get_id() in seen:
+            continue
+        seen.add(t.get_id())
+        if z3.is_const(t) and t.decl().kind() == z3.Z3_OP_UNINTERPRETED:
+            out.append(t)
+        stack.extend(t.children())
+    return out
+
+
+class RetWhen(Obj):
+    def __init__(self, ex):
+        super().__init__(ex, 'return_when')
+
+    def havoc(self, ex, st):
+        pass
+
+    def m_upper(self, ex, st, args, kwargs, node):
+        return [('ok', st, z3.Const('RETURN_WHEN_UPPER', Val))]
+
+
+class WaitUnitThreading(WaitUnitBase):
+    file = THR
+    variant = 'threading'
+    canaries = ()
+
+
+class AsCompletedUnit(WaitUnitBase):
+    """as_completed(workers, timeout): yields, for every future concurrent.futures.as_completed produces, that future's own worker."""
+    qual = 'as_completed'
+    canaries = (('map keyed by the worker instead of its future', 'future_to_thread = {id(t._future_): t for t in workers}', 'future_to_thread = {id(t): t for t in workers}', ''),)
+
+    def setup(self, ex):
+        st = super().setup(ex)
+        st.ghost['out'] = V.EMPTY
+        self.order = z3.Function('completion_order', z3.IntSort(), z3.IntSort())      # index of the worker whose future completes k-th
+        unit = self
+
+        class Completed(Obj):
+            def havoc(self_, e, s):
+                pass
+
+            def iter_start(self_, e, s, node):
+                s = s.fork()
+                s.ghost['ci'] = z3.IntVal(0)
+                return [('ok', s, self_)]
+
+            def havoc_index(self_, s):
+                i = fresh('ci', z3.IntSort())
+                s.assume(i >= 0)
+                s.ghost['ci'] = i
+
+            def idx(self_, s):
+                return s.ghost['ci']
+
+            def pull(self_, e, s, node):
+                i = s.ghost['ci']
+                s1 = s.fork().assume(unit.order(i) >= 0)
+                s1.ghost['ci'] = i + 1
+                s2 = s.fork()
+                s2.ghost['ended'] = i
+                s3 = s.fork()
+                return [('item', s1, wfut_at(unit.order(i))), ('stop', s2, None), e.raise_new(s3, 'TimeoutError')]
+
+        def cf_as_completed(e, s, a, k, n):
+            s = s.fork()
+            futs = unbox_handle(e, a[0])
+            ok = isinstance(futs, Fam) and futs.kind == 'list'
+            e.oblige(s, f'line {n.lineno}: concurrent.futures.as_completed gets the futures of ALL the workers, each worker\'s own (with the caller\'s timeout)',
+                     z3.And(futs.elem == wfut_at(IDX), futs.member == z3.BoolVal(True), box(e, k.get('timeout')) == z3.Const('timeout', Val)) if ok else z3.BoolVal(False))
+            s.ghost['cfwait'] = s.ghost['cfwait'] + (1,)
+            return [('ok', s, Completed(e, 'as_completed(...)'))]
+        ex.globals['concurrent.futures.as_completed'] = Fn(cf_as_completed, trusted='concurrent.futures.as_completed(fs, timeout) yields each future of fs once, as it completes; TimeoutError at the deadline')
+        return st
+
+    def on_yield(self, ex, st, val, node):
+        i = st.ghost['ci'] - 1
+        w = self.order(i)
+        ex.oblige(st, f'line {node.lineno}: what is yielded for the k-th completed future is that future\'s own worker', val == worker_at(w))
+        st.ghost['out'] = z3.Concat(st.ghost['out'], z3.Unit(val))
+
+    @property
+    def loops(self):
+        return {0: LoopSpec(inv=lambda s, ex: z3.Length(s.ghost['out']) == s.ghost['ci'], keep=('futures', 'future_to_thread'))}
+
+    def post(self, ex, outs):
+        for k, s, p in outs:
+            if k in ('normal', 'return'):
+                ex.oblige(s, 'exit: one worker yielded per completed future, after one concurrent.futures.as_completed', z3.And(z3.Length(s.ghost['out']) == s.ghost.get('ended', z3.IntVal(-1)), z3.BoolVal(len(s.ghost['cfwait']) == 1)))
+            else:
+                ex.oblige(s, 'exit(raise): only the time-out of concurrent.futures.as_completed', V.isinst(p, 'TimeoutError'))
+
+
+class AsCompletedUnitThreading(AsCompletedUnit):
+    file = THR
+    variant = 'threading'
+    canaries = ()
+
+
+UNITS_WAIT = [WaitUnitBase, WaitUnitThreading, AsCompletedUnit, AsCompletedUnitThreading]
+
 UNITS = [ProcInit, ProcInitNone, ProcessRun, ProcessRunNoTarget, CollectResult, ProcJoin, ProcJoinTimeout, ProcException, ProcResult, ProcDone,
-         ThreadRun, ThreadRunNoTarget, ThreadJoin, ThreadResult, ThreadException, Agreement]
+         ThreadRun, ThreadRunNoTarget, ThreadJoin, ThreadResult, ThreadException] + UNITS_WAIT + [Agreement]
 
 SCENARIOS = [('', 'replay/scenarios/c12_sigkill_wait.py')]
